@@ -99,7 +99,7 @@ def holder (th : Thread) : Bool :=
   | pc => holderPc pc
 
 /-- per-thread part of the invariant -/
-def thOK (th : Thread) : Bool :=
+def thOKW (th : Thread) : Bool :=
   waitsFollowed th.prog && noProcessIf th.prog && pcModeOK th.pc &&
   (!isWaitPc th.pc || headIsWait th.prog)
 
@@ -115,7 +115,7 @@ def cond (s : State) : Prop := s.queue ≠ [] ∧ s.nc = 0
 /-- the part of the invariant that does not mention obligations -/
 structure J0 (s : State) : Prop where
   locked : s.dqnLocked = true
-  th : ∀ t th, getT s t = some th → thOK th = true
+  th : ∀ t th, getT s t = some th → thOKW th = true
   loc : ∀ t th, getT s t = some th → locOK s.queue s.nc s.qm t th
 
 /-- KEY: events pending, notification enabled, somebody parked ⟹ somebody carries an obligation -/
@@ -138,7 +138,7 @@ def locOKb (queue : List Nat) (nc : Nat) (qm : Option Tid) (t : Tid) (th : Threa
 def checkJ (s : State) : Bool :=
   let ts := (List.range s.threads.length).filterMap (fun t => (s.threads[t]?).map (fun th => (t, th)))
   s.dqnLocked &&
-  ts.all (fun p => thOK p.2) &&
+  ts.all (fun p => thOKW p.2) &&
   ts.all (fun p => locOKb s.queue s.nc s.qm p.1 p.2) &&
   (s.queue.isEmpty || s.nc != 0 || !(ts.any (fun p => isParked p.2)) || ts.any (fun p => holder p.2))
 
